@@ -17,8 +17,9 @@ import (
 // C02: a table's identifier depends only on its logical content.
 //
 //	case = (columns pknames (variant ...) (mutant ...) cli)
-//	  variant = (rows runSize arrival (workers delimiter kind)) -- the SAME logical table: the rows
-//	            permuted, another run size / worker count / delimiter / producer (kind 0 or 2) / store
+//	  variant = (rows runSize arrival (workers delimiter kind deps)) -- the SAME logical table: the rows
+//	            permuted, another run size / worker count / delimiter / producer (kind 0 or 2) / store /
+//	            forced worker schedule (deps, see C01)
 //	  mutant  = (columns pknames rows) -- differs in one cell / column name / column order / key
 //	  cli     = 1: additionally drive wrgl commit from a branch file (see below)
 //	observation = (status (block ...) (same ...) (differs ...) (cli ...))
@@ -31,7 +32,7 @@ import (
 func init() { props["C02"] = &Prop{Gen: genC02, Run: runC02} }
 
 func c02Variant(k c01Case) *xt.T {
-	return xt.N(c19Rows(k.Rows), xt.L(k.RunSize), xt.Ints(k.Arrival), xt.N(xt.LI(k.Workers), xt.LI(int(k.Delim)), xt.LI(k.Kind)))
+	return xt.N(c19Rows(k.Rows), xt.L(k.RunSize), xt.Ints(k.Arrival), xt.N(xt.LI(k.Workers), xt.LI(int(k.Delim)), xt.LI(k.Kind), c01Deps(k.Deps)))
 }
 
 func c02Mutant(k c01Case) *xt.T {
@@ -77,6 +78,9 @@ func runC02(ctx *Ctx, c *xt.T) (*xt.T, Verdict) {
 		k := c01Case{Columns: columns, PKNames: pknames, Rows: c19DecodeRows(vt.Kids[0]), RunSize: vt.Kids[1].N,
 			Arrival: c19Ints(vt.Kids[2]), Workers: int(vt.Kids[3].Kids[0].N), Delim: rune(vt.Kids[3].Kids[1].N),
 			Kind: int(vt.Kids[3].Kids[2].N)}
+		if len(vt.Kids[3].Kids) > 3 {
+			k.Deps = c01DecodeDeps(vt.Kids[3].Kids[3])
+		}
 		if i < 2 {
 			k.Store = shared // variants 0 and 1 go into one store, the others into their own
 		}
@@ -259,6 +263,20 @@ func genC02(ctx *Ctx) []Case {
 			k.Kind = 0
 			if i == 4 {
 				k.Kind = 2
+			}
+			// tables of 3+ blocks: two variants are ingested under a forced worker schedule
+			if nb := (len(base.Rows) + 254) / 255; nb >= 3 && (i == 3 || i == 5) {
+				pattern := 2
+				if i == 5 {
+					pattern = 0
+					if nb >= 4 && ctx.Pick(2) == 0 {
+						pattern = 1
+					}
+				} else if nb <= 5 && ctx.Pick(2) == 0 {
+					pattern = 3
+				}
+				k.Deps, k.Arrival, k.Workers = c01ForcedSchedule(pattern, nb)
+				ctx.Count(fmt.Sprintf("forced_schedule_pattern_%d", pattern))
 			}
 			vs.Add(c02Variant(k))
 		}
